@@ -121,41 +121,40 @@ Theorem C08_bool_code_laws :
 Proof. exact bool_code_laws. Qed.
 Print Assumptions C08_bool_code_laws.
 
-(** ViterbiSemiring as it stands: ring and order laws, star is a solution, and the least one
-    away from x = 0 (boolean guard [viterbi_star_guard]) *)
-Theorem C08_viterbi_code_laws_partial :
-  sr_ring viterbi_code_ops /\ sr_ordered viterbi_code_ops /\
-  (forall a, star viterbi_code_ops a =
-             add viterbi_code_ops (one viterbi_code_ops) (mul viterbi_code_ops a (star viterbi_code_ops a))) /\
-  (forall a b x, viterbi_star_guard a = true ->
-     le viterbi_code_ops (add viterbi_code_ops (mul viterbi_code_ops a x) b) x ->
-     le viterbi_code_ops (mul viterbi_code_ops (star viterbi_code_ops a) b) x).
-Proof. exact viterbi_code_laws_partial. Qed.
-Print Assumptions C08_viterbi_code_laws_partial.
+(** ViterbiSemiring as it is now (star = where(x > 0, inf, 0.), after the repair of F2) *)
+Theorem C08_viterbi_code_laws :
+  sr_ring viterbi_code_ops /\ sr_ordered viterbi_code_ops /\ sr_star viterbi_code_ops.
+Proof. exact viterbi_code_laws. Qed.
+Print Assumptions C08_viterbi_code_laws.
+Theorem C08_viterbi_star_is_least_solution :
+  forall x, viterbi_star (xr_of_trop x) = xr_of_trop (tstar x).
+Proof. exact viterbi_star_ok. Qed.
+Print Assumptions C08_viterbi_star_is_least_solution.
 
-(** the full statement  [sr_star viterbi_code_ops]  is false for the code as it stands (F2):
-    star(0) = +inf is a solution of y = max(0, 0 + y) but not the least one *)
-Theorem C08_viterbi_star_zero_refuted :
+(** Record of finding F2 (repaired in /repo by d2ec7af).  [viterbi_star_old] is the formula the
+    code had before (x >= 0 -> inf); it is NOT the model of the current code.  For it the full
+    statement [sr_star] is false: star(0) = +inf is a solution of y = max(0, 0 + y) but not the
+    least one; the laws hold under the boolean guard x <> 0. *)
+Theorem C08_viterbi_star_old_zero_refuted :
   exists x y : trop,
-    viterbi_star (xr_of_trop x) = xr_of_trop y /\
+    viterbi_star_old (xr_of_trop x) = xr_of_trop y /\
     y = add trop_ops (one trop_ops) (mul trop_ops x y) /\
     y <> star trop_ops x /\
     ~ (forall z, z = add trop_ops (one trop_ops) (mul trop_ops x z) -> le trop_ops y z).
-Proof. exact viterbi_star_zero_refuted. Qed.
-Print Assumptions C08_viterbi_star_zero_refuted.
-Theorem C08_viterbi_code_star_refuted : ~ sr_star viterbi_code_ops.
-Proof. exact viterbi_code_star_refuted. Qed.
-Print Assumptions C08_viterbi_code_star_refuted.
-
-(** positive theorems under the guard, and for the recommended repair where(x > 0, inf, 0.) *)
-Theorem C08_viterbi_star_guarded :
-  forall x, x <> TFin 0%Qc -> viterbi_star (xr_of_trop x) = xr_of_trop (tstar x).
-Proof. exact viterbi_star_ok. Qed.
-Print Assumptions C08_viterbi_star_guarded.
-Theorem C08_viterbi_fixed_code_laws :
-  sr_ring viterbi_fixed_code_ops /\ sr_ordered viterbi_fixed_code_ops /\ sr_star viterbi_fixed_code_ops.
-Proof. exact viterbi_fixed_code_laws. Qed.
-Print Assumptions C08_viterbi_fixed_code_laws.
+Proof. exact viterbi_star_old_zero_refuted. Qed.
+Print Assumptions C08_viterbi_star_old_zero_refuted.
+Theorem C08_viterbi_old_code_star_refuted : ~ sr_star viterbi_old_code_ops.
+Proof. exact viterbi_old_code_star_refuted. Qed.
+Print Assumptions C08_viterbi_old_code_star_refuted.
+Theorem C08_viterbi_old_code_laws_partial :
+  sr_ring viterbi_old_code_ops /\ sr_ordered viterbi_old_code_ops /\
+  (forall a, star viterbi_old_code_ops a =
+             add viterbi_old_code_ops (one viterbi_old_code_ops) (mul viterbi_old_code_ops a (star viterbi_old_code_ops a))) /\
+  (forall a b x, viterbi_star_old_guard a = true ->
+     le viterbi_old_code_ops (add viterbi_old_code_ops (mul viterbi_old_code_ops a x) b) x ->
+     le viterbi_old_code_ops (mul viterbi_old_code_ops (star viterbi_old_code_ops a) b) x).
+Proof. exact viterbi_old_code_laws_partial. Qed.
+Print Assumptions C08_viterbi_old_code_laws_partial.
 
 (** pointwise: each formula of the code is the carrier operation *)
 Theorem C08_code_formulas_are_carrier_ops :
@@ -261,18 +260,28 @@ Qed.
 Print Assumptions C08_float_real_star.
 
 Theorem C08_float_viterbi_star :
-  (forall x, fleb fzero x = true -> fvit_star x = finf) /\
-  (forall x, fleb fzero x = false -> fvit_star x = fzero) /\
-  (forall x, fiszero x = false -> fvit_star x = fvit_star_fixed x).
-Proof. exact (conj fvit_star_nonneg (conj fvit_star_neg fvit_star_guarded)). Qed.
+  (forall x, fltb fzero x = true -> fvit_star x = finf) /\
+  (forall x, fltb fzero x = false -> fvit_star x = fzero) /\
+  fvit_star fzero = fzero /\ fvit_star fnzero = fzero /\
+  (forall x, fisnan x = false -> fvit_add fzero (fvit_mul x (fvit_star x)) = fvit_star x).
+Proof.
+  exact (conj fvit_star_pos (conj fvit_star_nonpos
+        (conj (proj1 (proj2 (proj2 (proj2 fvit_star_values))))
+        (conj (proj1 (proj2 (proj2 (proj2 (proj2 fvit_star_values))))) fvit_star_solution)))).
+Qed.
 Print Assumptions C08_float_viterbi_star.
 
-(** F2 on floats: star(0.) = +inf although y = 0. solves y = max(0., 0. + y) *)
-Theorem C08_float_viterbi_star_zero_refuted :
-  fvit_star fzero = finf /\ fvit_star fnzero = finf /\
-  fvit_add fzero (fvit_mul fzero fzero) = fzero /\ fltb fzero (fvit_star fzero) = true.
-Proof. exact fvit_star_zero_refuted. Qed.
-Print Assumptions C08_float_viterbi_star_zero_refuted.
+(** record of F2 on floats: the old formula gave star(0.) = +inf although y = 0. solves
+    y = max(0., 0. + y); away from zero old and new formula agree *)
+Theorem C08_float_viterbi_star_old_zero_refuted :
+  fvit_star_old fzero = finf /\ fvit_star_old fnzero = finf /\
+  fvit_add fzero (fvit_mul fzero fzero) = fzero /\ fltb fzero (fvit_star_old fzero) = true.
+Proof. exact fvit_star_old_zero_refuted. Qed.
+Print Assumptions C08_float_viterbi_star_old_zero_refuted.
+Theorem C08_float_viterbi_star_old_guarded :
+  forall x, fiszero x = false -> fvit_star_old x = fvit_star x.
+Proof. exact fvit_star_old_guarded. Qed.
+Print Assumptions C08_float_viterbi_star_old_guarded.
 
 (* ------------------------------------------------------------------------- *)
 (** * (D) the executable oracles of the correspondence check are sound *)
